@@ -402,3 +402,83 @@ class C10_RunnerBasics(RunnerBasics):
 class C11_RunnerBasics(RunnerBasics):
     props = ("C11",)
     reach = ("nontrivial", "self-trade", "multi-fill-round", "cancel")
+
+
+class Spoofing(Harness):
+    """an order (or cancel) carrying another agent's id is refused by the runner before it has any effect."""
+    name = "Spoofing"
+    title = "orders and cancels are only accepted from their owner (real SequentialRunner)"
+    what_symbolic = "price and volume of the spoofed order, activation order; who spoofs whom and through which path is the case split"
+    nontrivial_event = "a spoofed submission was refused"
+    reach = ("nontrivial",)
+    bounds = {"quick": "normal and high-frequency path; spoofed new order / spoofed cancel of the other agent's resting order", "thorough": "same"}
+    agreement_runs = 2
+
+    def cases(self, tier):
+        return [{"hft": h, "what": w} for h in (False, True) for w in ("order", "cancel")]
+
+    def run(self, g, case):
+        from pams.agents import Agent, HighFrequencyAgent
+        from pams.order import Cancel, LIMIT_ORDER, Order
+        state = {"victim_order": None, "done": False}
+
+        def behave(agent, markets):
+            t = markets[0].get_time()
+            if agent.agent_id == 0:
+                if t == 0 and state["victim_order"] is None:
+                    o = Order(agent_id=0, market_id=0, is_buy=True, kind=LIMIT_ORDER, volume=g.int("v0", 1, 100),
+                              price=g.int("p0", 1, 1000))
+                    state["victim_order"] = o
+                    return [o]
+                return []
+            if t == 1 and not state["done"]:
+                state["done"] = True
+                if case["what"] == "order":
+                    return [Order(agent_id=0, market_id=0, is_buy=False, kind=LIMIT_ORDER, volume=g.int("v1", 1, 100),
+                                  price=g.int("p1", 1, 1000))]
+                return [Cancel(order=state["victim_order"])]
+            return []
+
+        class Victim(Agent):
+            def submit_orders(self, markets):
+                return behave(self, markets)
+
+        class SpooferN(Agent):
+            def submit_orders(self, markets):
+                return behave(self, markets)
+
+        class SpooferH(HighFrequencyAgent):
+            def submit_orders(self, markets):
+                return behave(self, markets)
+        st = rn.base_settings(n_agents=0, sessions=[rn.session(0, 2, True, True, maxNormalOrders=2)])
+        st["simulation"]["agents"] = ["V", "X"]
+        st["V"] = {"class": "Victim", "numAgents": 1, "markets": ["M"], "assetVolume": 50, "cashAmount": 10000}
+        st["X"] = {"class": "SpooferH" if case["hft"] else "SpooferN", "numAgents": 1, "markets": ["M"],
+                   "assetVolume": 50, "cashAmount": 10000}
+        if case["hft"]:
+            # the HFT phase only runs after a normal batch: a second normal agent keeps quoting
+            st["simulation"]["agents"].append("A")
+            st["A"] = {"class": "ScriptedAgent", "numAgents": 1, "markets": ["M"], "assetVolume": 50, "cashAmount": 10000}
+        ctx = rn.make_run(g, st, {"acts": ["limit"], "side": "S", "price_fixed": 2000, "vol_fixed": 1},
+                          classes=(Victim, SpooferN, SpooferH))
+        m = ctx.sim.markets[0]
+        try:
+            ctx.runner._run()
+            raised = None
+        except ValueError as e:
+            raised = e
+        g.require(raised is not None, "C04.spoofed-submission-accepted",
+                  f"a {case['what']} carrying another agent's id went through")
+        g.note("nontrivial")
+        # nothing of the spoofed submission took effect
+        o = state["victim_order"]
+        g.require(o.placed_at is not None and not o.is_canceled, "C04.spoofed-submission-had-effect")
+        g.require(len(ctx.logger.distinct(OrderLog)) == (1 if not case["hft"] else len(ctx.logger.distinct(OrderLog))),
+                  "C04.spoofed-submission-had-effect")
+        g.require(len(ctx.logger.distinct(CancelLog)) == 0, "C04.spoofed-submission-had-effect")
+        buys = m.get_buy_order_book()
+        g.require(len(buys) == 1, "C04.spoofed-submission-had-effect")
+
+
+class C04_Spoofing(Spoofing):
+    pass
